@@ -43,9 +43,21 @@ class Router:
         return frozenset(self.topics_by_queue.keys())
 
     def include_router(self, router: Router) -> None:
-        self.actors.update(router.actors)
-        for queue_name, topics in router.topics_by_queue.items():
-            self.topics_by_queue[queue_name].update(topics)
+        for actor in router.actors.values():
+            self._register(actor)
+
+    def _register(self, a: ActorData) -> None:
+        # a name is served through the queue of its latest registration only:
+        # when an override moves it to another queue, the previous queue forgets the topic
+        previous = self.actors.get(a.name)
+        if previous is not None and previous.queue != a.queue:
+            topics = self.topics_by_queue.get(previous.queue)
+            if topics is not None:
+                topics.discard(a.name)
+                if not topics:
+                    del self.topics_by_queue[previous.queue]
+        self.actors[a.name] = a
+        self.topics_by_queue[a.queue].add(a.name)
 
     @overload
     def actor(
@@ -136,6 +148,5 @@ class Router:
                 "followed by letters, digits, dashes or underscores.",
             )
 
-        self.actors[a.name] = a
-        self.topics_by_queue[a.queue].add(a.name)
+        self._register(a)
         return fn
